@@ -179,12 +179,12 @@ Definition build_http (L : lreq) : rview :=
     pinned).  Every definition below that depends on a finding takes the flag; the theorems hold for
     every combination. *)
 Record fixes := {
-  fx_F1 : bool;   (* fixes/C13-F1.diff (fix: b2286d8): the Envoy context caches the view *)
-  fx_F2 : bool;   (* fixes/C13-F2.diff: grpcv3 Header(name) canonicalises the name *)
-  fx_F3 : bool;   (* fixes/C13-F3.diff: decision and proxy hand all values of a pipeline header over *)
-  fx_F4 : bool;   (* fixes/C13-F4.diff: decoded Path and RawPath in the Envoy context *)
-  fx_F6 : bool;   (* fixes/C13-F6.diff: grpcv3 Header("Host") gives the request host *)
-  fx_F7 : bool    (* fixes/C13-F7.diff: grpcv3 Body() of an empty body is "" *)
+  fx_F1 : bool;   (* fix: b2286d8 (fixes/C13-F1.diff): the Envoy context caches the view *)
+  fx_F2 : bool;   (* fix: 7c3e9fc (fixes/C13-F2.diff): grpcv3 Header(name) canonicalises the name *)
+  fx_F3 : bool;   (* fix: a5ef279 (fixes/C13-F3.diff): decision and proxy hand all values of a pipeline header over *)
+  fx_F4 : bool;   (* fix: ae6db4f (fixes/C13-F4.diff): decoded Path and RawPath in the Envoy context *)
+  fx_F6 : bool;   (* fix: 06faa19 (fixes/C13-F6.diff): grpcv3 Header("Host") gives the request host *)
+  fx_F7 : bool    (* fix: 19923cd (fixes/C13-F7.diff): grpcv3 Body() of an empty body is "" *)
 }.
 
 Definition pinned : fixes :=
@@ -204,8 +204,9 @@ Definition set_F6 (b : bool) (f : fixes) : fixes :=
 Definition set_F7 (b : bool) (f : fixes) : fixes :=
   {| fx_F1 := fx_F1 f; fx_F2 := fx_F2 f; fx_F3 := fx_F3 f; fx_F4 := fx_F4 f; fx_F6 := fx_F6 f; fx_F7 := b |}.
 
-(** /repo today: C13-F1 repaired (fix: b2286d8) *)
-Definition repo_now : fixes := set_F1 true pinned.
+(** /repo today (abe584c): all six repairs are in — F1 b2286d8, F2 7c3e9fc, F3 a5ef279, F4 ae6db4f,
+    F6 06faa19, F7 19923cd *)
+Definition repo_now : fixes := all_fixed.
 
 (** grpcv3.NewRequestContext + Request().  [fixed_F4 = false]: the pinned code puts the path as received
     (escaped) into URL.Path and leaves RawPath empty (finding C13-F4); [fixed_F4 = true]: the candidate
@@ -532,9 +533,10 @@ Section Oracles.
 
   (** decision: rw.Header().Set(k, uh.Get(k)) — the first value only; after fixes/C13-F3.diff all values
       (as separate header lines, projected to their ","-join); http.SetCookie (invalid names are
-      dropped, values sanitised) *)
+      dropped, values sanitised).  What is handed over is what is read off the wire: optional white
+      space around a header value does not survive it ([http_trim]). *)
   Definition handed_value (fixed_F3 : bool) (uh : hdrs) (k : string) : string :=
-    if fixed_F3 then join "," (values k uh) else get k uh.
+    if fixed_F3 then join "," (map http_trim (values k uh)) else http_trim (get k uh).
 
   Definition finalize_decision (fixed_F3 : bool) (adds : list add) : handover :=
     let uh := upstream_headers adds in
@@ -548,10 +550,11 @@ Section Oracles.
     {| ho_headers := map (fun k => (k, handed_value fixed_F3 uh k)) (keys_of uh []);
        ho_cookies := map (fun kv => (fst kv, sanitize_cookie_value (snd kv))) (upstream_cookies adds) |}.
 
-  (** envoy: strings.Join(upstreamHeaders.Values(k), ","); one Cookie header "k=v;k=v" without any sanitising *)
+  (** envoy: strings.Join(upstreamHeaders.Values(k), ",") (Envoy puts that on the wire to the upstream);
+      one Cookie header "k=v;k=v" without any sanitising *)
   Definition finalize_envoy (adds : list add) : handover :=
     let uh := upstream_headers adds in
-    {| ho_headers := map (fun k => (k, join "," (values k uh))) (keys_of uh []);
+    {| ho_headers := map (fun k => (k, http_trim (join "," (values k uh)))) (keys_of uh []);
        ho_cookies := upstream_cookies adds |}.
 
   (** one request through one entry point: error kind or matched rule + hand-over *)
